@@ -12,7 +12,7 @@ namespace {
 struct Run : ContBase {
     qvector_t *v = nullptr;
     std::vector<std::string> m;
-    size_t objsize = 0, cap = 0; int policy = 0;
+    size_t objsize = 0, cap = 0; int policy = 0; bool combo = false, tsafe = false;
     FILE *devnull = nullptr;
     int nt = 0, grown = 0, inner_removed = 0; bool after_resize0 = false;
 
@@ -179,10 +179,14 @@ struct Run : ContBase {
         cap = (size_t)s.range(0, 8);
         policy = (int)s.range(0, 2);
         int opt = policy == 0 ? (s.boolean() ? QVECTOR_RESIZE_EXACT : 0) : policy == 1 ? QVECTOR_RESIZE_LINEAR : QVECTOR_RESIZE_DOUBLE;
+        // any subset of the policy bits is a legal option word (the contents never depend on which one wins),
+        // and a thread-safe vector used by one thread behaves like a plain one
+        if (s.chance(1, 5)) { opt = 0; if (s.boolean()) opt |= QVECTOR_RESIZE_EXACT; if (s.boolean()) opt |= QVECTOR_RESIZE_LINEAR; if (s.boolean()) opt |= QVECTOR_RESIZE_DOUBLE; policy = (opt & QVECTOR_RESIZE_DOUBLE) ? 2 : (opt & QVECTOR_RESIZE_LINEAR) ? 1 : 0; combo = true; }
+        if (s.chance(1, 4)) { opt |= QVECTOR_THREADSAFE; tsafe = true; }
         vf_ledger_on = 1;
         v = qvector(cap, objsize, opt);
         if (!v) c.fail(FUNC, "vector:ctor", "qvector(%zu,%zu,%d) returned NULL", cap, objsize, opt);
-        c.op("qvector(max=%zu, objsize=%zu, %s)", cap, objsize, policy == 0 ? "EXACT" : policy == 1 ? "LINEAR" : "DOUBLE");
+        c.op("qvector(max=%zu, objsize=%zu, options 0x%x: %s%s%s)", cap, objsize, opt, policy == 0 ? "EXACT" : policy == 1 ? "LINEAR" : "DOUBLE", combo ? " [policy bits combined]" : "", tsafe ? " THREADSAFE" : "");
         int maxops = c.tier ? 2000 : 400, ops = 0;
         while (!s.exhausted() && ops++ < maxops) {
             int o = (int)s.pick({30, 10, 8, 20, 4, 1, 3, 3, 3, 1, 2});
@@ -219,7 +223,7 @@ struct Run : ContBase {
         c.op("free()");
         verify_kept(true);
         leak_verdict("qvector_free");
-        c.tag(policy == 0 ? "policy_exact" : policy == 1 ? "policy_linear" : "policy_double");
+        c.tag(policy == 0 ? "policy_exact" : policy == 1 ? "policy_linear" : "policy_double"); if (combo) c.tag("policy_bits_combined"); if (tsafe) c.tag("threadsafe_option_single_thread");
         if (after_resize0) c.tag("case_with_resize_to_zero"); if (grown) c.tag("case_with_growth");
         if (c.mode == "C10") c.nontrivial = nt > 0;
         else if (c.mode == "C11") c.nontrivial = inner_removed > 0 && nonempty;
